@@ -1,4 +1,5 @@
 import Upf.Proofs.AgentWorld
+import Upf.Gen.Dispatch
 /-!
 # C02 — Every request gets exactly one correctly addressed response
 
@@ -65,5 +66,50 @@ theorem mod_unknown (cfg : Cfg) (w : World) (a : Nat) (r : ModReq)
 
 /-- cause values: acceptance is 1; the rejection causes differ from it -/
 theorem causes : causeAccepted = 1 ∧ causeRejected = 64 ∧ causeNoAssoc = 72 ∧ causeNoResources = 75 := ⟨rfl, rfl, rfl, rfl⟩
+
+/-! ## the dispatcher (T1: `Gen.Dispatch` is regenerated from `PFCPConn.HandlePFCPMsg` on every run) -/
+
+open Gen.Dispatch in
+/-- PFCP request types the agent serves, with the response type each must be answered with -/
+def served : List (Nat × String × String) :=
+  [(1, "handleHeartbeatRequest", "NewHeartbeatResponse"), (3, "handlePFDMgmtRequest", "NewPFDManagementResponse"),
+   (5, "handleAssociationSetupRequest", "NewAssociationSetupResponse"), (9, "handleAssociationReleaseRequest", "NewAssociationReleaseResponse"),
+   (50, "handleSessionEstablishmentRequest", "NewSessionEstablishmentResponse"),
+   (52, "handleSessionModificationRequest", "NewSessionModificationResponse"),
+   (54, "handleSessionDeletionRequest", "NewSessionDeletionResponse")]
+
+/-- PFCP response-type messages (TS 29.244 table 7.3-1: node and session related responses, incl. Version Not Supported) -/
+def responseTypes : List Nat := [2, 4, 6, 8, 10, 11, 13, 15, 51, 53, 55, 57]
+
+/-- every served request type is dispatched by exactly one clause, to its own handler, and that clause takes the handler's reply -/
+theorem every_request_has_one_replying_clause :
+    served.all (fun (t, h, _) =>
+      (Gen.Dispatch.clauses.filter (·.types.contains t)).map (fun c => (c.handler, c.takesReply, c.returns)) == [(h, true, false)]) = true := by
+  decide
+
+/-- the handler of a request type builds responses of the matching type only, and sends nothing itself: the one datagram per
+request is the dispatcher's -/
+theorem handlers_build_the_matching_response :
+    served.all (fun (_, h, ctor) =>
+      (Gen.Dispatch.constructors.filter (·.1 == h)).map (·.2) == [[ctor]] &&
+      (Gen.Dispatch.handlerSends.filter (·.1 == h)).map (·.2) == [0]) = true := by
+  decide
+
+/-- the dispatcher puts at most one datagram on the wire per incoming message: its only send is the top-level
+`if reply != nil { SendPFCPMsg(reply) }` after the switch, and it has no loop -/
+theorem one_send_per_message :
+    Gen.Dispatch.sendCalls = 1 ∧ Gen.Dispatch.guardedSendsAfterSwitch = 1 ∧ Gen.Dispatch.loops = 0 := by
+  decide
+
+/-- response-type messages are never answered: a clause that serves a response type takes no reply, its handler builds no message
+and sends nothing; any other type falls to the default clause, which returns -/
+theorem response_types_are_never_answered :
+    (Gen.Dispatch.clauses.filter (fun c => c.types.any responseTypes.contains)).all (fun c =>
+      !c.takesReply &&
+      (Gen.Dispatch.constructors.filter (·.1 == c.handler)).map (·.2) == [[]] &&
+      (Gen.Dispatch.handlerSends.filter (·.1 == c.handler)).map (·.2) == [0]) = true ∧
+    Gen.Dispatch.defaultReturns = true ∧
+    (Gen.Dispatch.clauses.filter (·.takesReply)).all (fun c => c.types.all (fun t => !responseTypes.contains t)) = true := by
+  decide
 
 end Props.C02
